@@ -32,5 +32,20 @@ CLAIMS['C06'] = {
   'note': _TB + 'Mixed-type pairs are specified on the operands after the promotion the operator itself performs; exactness of those promotions is proved under C03.',
 }
 
+CLAIMS['C04'] = {
+  'text': 'Proof for + - *: values.add/sub/mul with Float.iadd/isub/imul, _add_den, _normalise, _check_limits, _bring_to_range are proved for every pair of single '
+          '(all exponent differences) and double bit patterns (double + and -: a stated set of exponent differences on every change, all 256 in the thorough tier): '
+          'result within 2 ulp (+,-) / less than 1 ulp (*) of the exact result, Overflow only beyond the largest number, zero only below the smallest positive number, '
+          'non-canonical zeros included; FloatErrorHandler.handle (soft/hard handling) proved. '
+          'Division (Float._div_den long-division loop) is NOT proved: a bounded stand-in samples operand patterns natively and is reported separately, never counted as proved.',
+  'note': _TB + 'values.mul is verified against the proved contract of Float._denormalise and with the mantissa product as a shared atom with interval axioms (over-approximation). Division: bounded sampling only.',
+}
+CLAIMS['C05'] = {
+  'text': 'Proof: relational obligations on the real code, all bit patterns: x+y = y+x and x*y = y*x byte for byte (single: all exponent differences; double +: stated set in quick, all in thorough), '
+          'x+0 = x, 0+x = x, x*1 = x, x-x = 0 for every zero encoding, -(-x) = x, ABS, SGN for Integer/Single/Double, and promotion of mixed operands to the wider type '
+          '(modular: the arithmetic methods are replaced by recording stubs, the operands they receive are the exactly promoted values). x/1 = x is only covered by the bounded division stand-in of C04.',
+  'note': _TB + 'Float._denormalise by contract in the multiplication identity; integers are computed in single precision for + - * / (as the code does).',
+}
+
 NOT_APPLICABLE = {
 }
